@@ -233,15 +233,17 @@ def oracle(ctx: Ctx, per: int):
             # near-misses: exactly one of verb / responding device / code / context differs
             misses = [("verb", line.replace(f" {rverb} ", " RP " if rverb == " I" else "  I ", 1)),
                       ("src", line.replace(cmd.dst.id, cmd.dst.id[:3] + "999999"))]
-            if len(hdr.split("|")) > 3:      # the header carries a context: vary the positions it is taken from
+            if len(hdr.split("|")) > 3 or code in ("0005", "000C", "0404", "0418", "3220"):   # a context is carried (or must be): vary its positions
                 for a, b in ctx_positions(code):
                     if code == "0404" and (a, b) == (0, 4) and rp[2:4] == "23":
                         continue             # the one DHW schedule: its zone byte is not part of the context ('HW')
-                    alt = list(rp)
-                    alt[a:b] = f"{(int(rp[a:b][:2], 16) + 1) % 12:02X}" + rp[a:b][2:]
-                    alt = "".join(alt)
-                    if alt != rp and re.match(rx, alt):
-                        misses.append((f"context[{a}:{b}]", f"045 {rverb} --- {cmd.dst.id} {GW} --:------ {code} {len(alt) // 2:03d} {alt}"))
+                    alts = [f"{(int(rp[a:b][:2], 16) + 1) % 12:02X}" + rp[a:b][2:]]
+                    if b - a == 4:          # a two-byte context (index + type/role): vary the second byte too
+                        alts += [rp[a:a + 2] + x for x in ("08", "09", "0A", "0B", "11", "04", "0D", "0E", "0F", f"{(int(rp[a + 2:b], 16) + 1) % 256:02X}") if x != rp[a + 2:b]]
+                    for piece in alts:
+                        alt = rp[:a] + piece + rp[b:]
+                        if alt != rp and re.match(rx, alt):
+                            misses.append((f"context[{a}:{b}]", f"045 {rverb} --- {cmd.dst.id} {GW} --:------ {code} {len(alt) // 2:03d} {alt}"))
             for what, ml in misses:
                 try:
                     m = Packet.from_port(D, ml)
